@@ -1249,3 +1249,50 @@ Proof.
       apply (G (Some cv)); [exists cv; auto | exact H].
     + apply (G None); [reflexivity | exact H].
 Qed.
+
+(* ====================================================== the interface level *)
+(* cookClient handles every method on its own (the context parameter, the body parameter, the
+   query dictionary of one method never leak into another one): the method list is the list of
+   the per-method results, in order; methods without usable directive are dropped *)
+Definition cooked_list (sigma : oracle) (E : env) (I : iface) : list (string * mdata) :=
+  flat_map (fun it => match it with
+                      | IMethod m => match cook_method sigma E m with COk d => [(md_name m, d)] | _ => [] end
+                      | IEmbed _ => []
+                      end) I.
+Definition no_fatal (sigma : oracle) (E : env) (I : iface) : Prop :=
+  forall m, In (IMethod m) I -> forall w, cook_method sigma E m <> CFatal w.
+
+Lemma cook_methods_list : forall sigma E I,
+  no_fatal sigma E I -> cook_methods sigma E I = COk (cooked_list sigma E I).
+Proof.
+  intros sigma E. induction I as [|it I IH]; intros Hnf; [reflexivity|].
+  assert (Hnf' : no_fatal sigma E I) by (intros m Hin; apply Hnf; right; exact Hin).
+  destruct it as [doc|m]; simpl.
+  - apply IH. exact Hnf'.
+  - unfold cooked_list. simpl. fold (cooked_list sigma E I).
+    destruct (cook_method sigma E m) as [d| |w] eqn:Ec.
+    + rewrite (IH Hnf'). reflexivity.
+    + apply IH. exact Hnf'.
+    + exfalso. apply (Hnf m (or_introl eq_refl) w). exact Ec.
+Qed.
+
+Lemma cook_methods_all : forall (sigma : oracle) E I,
+  is_oracle sigma ->
+  (forall m, In (IMethod m) I -> exists ms, linked E m ms /\ wf_mspec ms = true) ->
+  exists l, cook_methods sigma E I = COk l /\
+            map fst l = flat_map (fun it => match it with IMethod m => [md_name m] | IEmbed _ => [] end) I /\
+            forall m, In (IMethod m) I -> exists d, cook_method sigma E m = COk d /\ In (md_name m, d) l.
+Proof.
+  intros sigma E I Hs Hall. exists (cooked_list sigma E I).
+  assert (Hok : forall m, In (IMethod m) I -> exists d, cook_method sigma E m = COk d).
+  { intros m Hin. destruct (Hall m Hin) as [ms [Hl Hw]]. exists (dfin ms). apply cook_method_ok; assumption. }
+  split; [|split].
+  - apply cook_methods_list. intros m Hin w E1. destruct (Hok m Hin) as [d Hd]. congruence.
+  - clear Hall. induction I as [|it I IH]; [reflexivity|].
+    unfold cooked_list. simpl. fold (cooked_list sigma E I). rewrite map_app.
+    rewrite IH by (intros m Hin; apply Hok; right; exact Hin).
+    destruct it as [doc|m]; [reflexivity|].
+    destruct (Hok m (or_introl eq_refl)) as [d Hd]. rewrite Hd. reflexivity.
+  - intros m Hin. destruct (Hok m Hin) as [d Hd]. exists d. split; [exact Hd|].
+    unfold cooked_list. apply in_flat_map. exists (IMethod m). split; [exact Hin|]. rewrite Hd. left. reflexivity.
+Qed.
